@@ -10,7 +10,7 @@ import random
 
 from .. import core, tlc
 
-UOD = ["Short", "Long", "Forever", "OvA", "OvB"]
+UOD = ["Short", "Long", "Forever", "OvA", "OvB", "Loop1"]
 CTL = ["Start", "Stop", "Restart", "Pause", "Unpause", "Hold", "Unhold"]
 METHOD = ["Base: s", "Mark: A", ""]
 
@@ -44,10 +44,19 @@ def _run(schedule, tid):
                        "execL": [str(c.name) for c in eng._command_manager.cmd_executing],
                        "started": bool(eng._runstate_started), "stopping": bool(eng._runstate_stopping),
                        "paused": bool(eng._runstate_paused), "holding": bool(eng._runstate_holding),
+                       "out": _num(r.uod.tags["Out1"].get_value()), "hw": _num(r.hw.mem.get("Out1")),
+                       "prev": -1 if eng._prev_state is None or not eng._prev_state.has("Out1") else _num(eng._prev_state.get("Out1").value),
                        "state": snap["state"], "err": bool(eng.has_error_state())})
     finally:
         r.close()
     return {"id": tid, "ev": ev, "schedule": [list(x) for x in schedule]}
+
+
+def _num(v):
+    f = float(v)
+    if f != int(f):
+        raise core.MachineryFailure(f"non-integer output value {v!r}")
+    return int(f)
 
 
 def _random_schedule(rnd, n):
@@ -72,9 +81,13 @@ def run_lockstep(ctx: core.Ctx):
     if old.ok:
         raise core.MachineryFailure("CmdMgrAsCoded.cfg (the command manager before fix e60c335a) no longer violates its invariants: "
                                     "the design check has become vacuous")
+    pw = tlc.run_tlc("CmdMgr", "CmdMgrPausedWrites.cfg", workers=8, timeout=1200)
+    if pw.ok:
+        raise core.MachineryFailure("CmdMgrPausedWrites.cfg no longer violates SafeWhilePaused: the model has lost the recorded finding "
+                                    "C08.safe-while-paused@command-keeps-writing (or the finding was repaired: then drop this cfg)")
     rnd = random.Random(ctx.seed)
     traces = []
-    choices = [[]] + [[x] for x in ["Short", "Long", "OvA", "OvB"] + CTL]     # (Forever appears in the random and pair runs)
+    choices = [[]] + [[x] for x in ["Short", "Long", "OvA", "Loop1"] + CTL]     # (the other commands appear in the random and pair runs)
     prefixes = list(itertools.product(choices, repeat=3))
     if not ctx.quick:       # thorough: also every sequence of four ticks with at most one control command each, after a Long
         prefixes += [(["Long"],) + tuple(x) for x in itertools.product([[]] + [[x] for x in CTL], repeat=4)]
@@ -100,7 +113,7 @@ def run_lockstep(ctx: core.Ctx):
                                         detail=f"requests per tick={t['schedule'][:line]} tick#{line} observed={t['ev'][line - 1]}",
                                         replay={"method": METHOD, "schedule": t["schedule"], "line": line, "observed": t["ev"][line - 1]}))
     cov = dict(cmdlock_states=res.distinct, cmdlock_transitions=res.generated, cmdlock_runs=len(traces),
-               cmdlock_ticks=sum(len(t["ev"]) for t in traces), cmdlock_as_coded_violates=str(old.violated),
+               cmdlock_ticks=sum(len(t["ev"]) for t in traces), cmdlock_as_coded_violates=str(old.violated), cmdlock_paused_writes_violates=str(pw.violated),
                cmdlock_requests=sum(len(e["reqs"]) for t in traces for e in t["ev"]),
                cmdlock_accepted=sum(sum(1 for x in e["acc"] if x) for t in traces for e in t["ev"]),
                cmdlock_hook_calls=sum(len(e["hooks"]) for t in traces for e in t["ev"]))
